@@ -20,7 +20,15 @@ def snapshot(calc):
     # the adiabatic correction divides by the QHA heat capacity, itself a second numerical difference of F(T,V): where C_V is
     # a vanishing fraction of its maximum (rows of a few kelvin) last-digit changes of F are amplified without bound
     cv = numpy.asarray(calc.qha_calculator.volume_base.heat_capacity, float)
-    cv_ok = (cv > 1e-4 * numpy.nanmax(cv)) | (numpy.asarray(calc.t_array)[:, None] == 0)
+    t_ = numpy.asarray(calc.t_array, float)
+    # ... quantitatively: C_V = -T d2F/dT2 by differences of a free energy of magnitude |F| (it contains the static energy, tens to
+    # hundreds of Ry) carries a rounding uncertainty of about 4 eps |F| T / DT^2; the correction itself is ~1e-2 of a modulus, so
+    # it is compared where that uncertainty is below 1e-7 of C_V
+    fmag = max(abs(float(v_.energy)) for v_ in calc.qha_input.volumes) + 1.0
+    dt_ = float(numpy.min(numpy.abs(numpy.diff(t_)))) if len(t_) > 1 else 1.0
+    with numpy.errstate(all="ignore"):
+        cv_noise = 4 * 2.3e-16 * fmag * t_[:, None] / dt_ ** 2 / numpy.abs(cv)
+    cv_ok = ((cv > 1e-4 * numpy.nanmax(cv)) & (cv_noise < 1e-7)) | (t_[:, None] == 0)
     for key in calc.modulus_keys:
         a, b = (int(x) for x in key.voigt)
         out[f"c{a}{b}t"] = numpy.asarray(calc.modulus_isothermal[key])
@@ -55,8 +63,21 @@ def snapshot(calc):
     return out
 
 
-def compare(ctx, base, other, what, case_id, cls, data):
+def worst_difference(base, other):
+    worst = 0.0
+    for nm, a in base.items():
+        b = other.get(nm)
+        if b is None or a.shape != b.shape:
+            continue
+        both = numpy.isfinite(a) & numpy.isfinite(b)
+        if both.any():
+            worst = max(worst, numpy.abs(a[both] - b[both]).max() / (numpy.abs(a[both]).max() + 1e-300))
+    return worst
+
+
+def compare(ctx, base, other, what, case_id, cls, data, TOL=None):
     """Returns True if equal to rounding."""
+    TOL = globals()["TOL"] if TOL is None else TOL
     modset = lambda d: {k for k in d if not k.startswith("tp:") or k in ("tp:volumes", "tp:c_first_t")}
     if modset(base) != modset(other):
         ctx.violation(f"{what}:different-quantities", f"{cls}: result sets differ: {sorted(modset(base) ^ modset(other))[:6]}", case_id, data)
@@ -163,6 +184,17 @@ def _run(ctx, e2e):
         base_in = (list(base_calc.qha_input.weights), [v.volume for v in base_calc.qha_input.volumes],
                    [list(q.modes) for q in base_calc.qha_input.volumes[0].q_points], list(base_calc.elast_data.volumes[0].static_elastic_modulus.keys()),
                    [v.volume for v in base_calc.elast_data.volumes])
+        # what "rounding" means for this data set: the same files with all weights multiplied by 1 + 2^-48 (a change in the last
+        # digits of the normalised weights only); the tolerance is the usual 1e-8, or 30 x the response to that noise if larger
+        tol_case = TOL
+        try:
+            calc_n, exc_n = e2e.run(WF.write_dataset(ds, cfg, e2e.workdir(case_id + "-noise"), weight_scale=1.0 + 2.0 ** -48), case_id)
+            if exc_n is None:
+                noise = worst_difference(base, snapshot(calc_n))
+                ctx.maxi("rounding_noise_response", noise)
+                tol_case = max(TOL, 30 * noise)
+        except Exception as exc_:
+            ctx.harness_error("C13.noise", exc_)
         for what, kw in transformations(rng, ds):
             wd2 = e2e.workdir(case_id + "-t")
             path2 = WF.write_dataset(ds, cfg, wd2, **kw)
@@ -188,7 +220,7 @@ def _run(ctx, e2e):
                         ctx.harness_error("C13.snapshot", exc2)
                     continue
                 ctx.count("volume_reorder_accepted")
-                if compare(ctx, base, snap2, "volume-block-order", case_id, cls, data):
+                if compare(ctx, base, snap2, "volume-block-order", case_id, cls, data, TOL=tol_case):
                     ctx.count("pairs_compared")
                 continue
             if exc is not None:
@@ -208,7 +240,7 @@ def _run(ctx, e2e):
                 else:
                     ctx.harness_error("C13.snapshot", exc2)
                 continue
-            if compare(ctx, base, snap2, what, case_id, cls, data):
+            if compare(ctx, base, snap2, what, case_id, cls, data, TOL=tol_case):
                 ctx.count("pairs_compared")
 
 
